@@ -38,6 +38,37 @@ Oracles (clause of the statement -> oracle):
                     the weights, and carry the model's condition descriptors; models rebuilt from their dictionary form
                     predict identically": all four model classes, three constructor forms, explicit / default theta.
   C08/forwarding    Model.fit and Fitter.__call__ hand every argument to the fitting function unchanged (recording stub).
+  C08/sequence      what "the fit is THE maximiser of the criterion of ITS arguments" implies for sequences of calls and for
+                    permutations: the same call again (also after fits of other data / of another model of the same shape,
+                    and with freshly built objects) returns the same parameters; the later result is the optimum of the later
+                    problem and never worse than the earlier result; arguments (basis RDMs, training RDMs, sigma_k,
+                    pattern_idx, descriptors) are left as they were; results held by the caller do not change; basis RDMs in
+                    the opposite order give the weights in the opposite order, the order of the training RDMs is irrelevant.
+  C08/cross-process the same fits and predictions in a new interpreter with another PYTHONHASHSEED, bit for bit.
+
+Dimension sweeps (metamorphic: every criterion is invariant under positive scaling of the basis RDMs, of each training RDM and
+of sigma_k, and does not depend on the numpy dtype or container the same numbers come in).  The six optimality / structure
+oracles, C08/restriction and C08/predict are run in addition on (input classes in quotes; `_sweep_cases`):
+  'typed-data,<dtype>'   whole-number basis and training RDMs handed over as int64 / int32 / int16 / uint8 / float32 arrays
+                         (spec on the same values in float64); 'typed-data,int16,values-to-111' larger whole numbers;
+  'units,basis-x<c>', 'units,training-x<c>', 'units,basis-and-training-x<c>', 'units,sigma_k-x<c>'   c = 1e-20 .. 1e+12;
+  'containers,pattern_idx-list' / '-tuple', 'containers,str-labels', 'containers,model-from-vectors';
+  'grouped-descriptor'   the pattern descriptor has repeated, interleaved values with unbalanced counts whose first appearance
+                         is not in sorted order (int or str); pattern_idx names groups, with repeats;
+  'sizes,single-basis-rdm' (incl. a negatively aligned one), 'sizes,3-conditions', 'sizes,10-12-conditions' (5-6 basis RDMs,
+                         5 training RDMs);
+  predictions: parameters as list / tuple / integer array / numpy integer, the dictionary with its entries in the opposite
+  order, repeated calls, parameter array and constructor array untouched, held vector unchanged.
+PENDING TRIAGE (fail on the unchanged tree, reported, NOT registered: `_PENDING_TRIAGE`):
+  fit_regress, fit_regress_nn on 'units,*-x1e-12' / '-x1e-20' with the whitened criteria: scipy cg(..., atol=1e-9) in
+      fit_regress, _nn_least_squares and pool_rdm is an ABSOLUTE tolerance -- for RDMs of norm < 1e-9 it returns the zero vector
+      (LinAlgError 'Singular matrix', NaN weights, all-zero weights, or a misleading 'different nan positions' error);
+  fit_regress_nn: the active-set loop `while np.max(w) > 100 * eps` compares the dual vector with an absolute threshold: for
+      tiny units it stops at once (all-zero weights, also for cosine / corr), for basis RDMs of magnitude >~ 30 the rounding
+      residue of w on the support stays above it and the loop NEVER ENDS (classes 'units,basis-x1e+06', '-x1e+12',
+      'units,sigma_k-x1e-06'; also about a third of plain float64 problems scaled by 30 .. 1000);
+  fit_regress, fit_regress_nn on 'typed-data,uint8' and 'typed-data,int16,values-to-111' with method cosine:
+      `vectors @ vectors.T` is computed in the dtype of the basis RDMs and wraps around.
 
 Input classes (they key the findings; every class is a property of the INPUT computed without repo code):
   weighted fitters: sigma_k-none | sigma_k-given,single-train | sigma_k-given,multi-train; for fit_optimize in addition
